@@ -25,18 +25,18 @@ def same(a, b):
     return type(a) == type(b) and a == b or (a == b and not isinstance(a, bool))
 
 
-def make_et(goodwe, serial, rated, refuse=(), battery_mode=2, seed=0, arm_fw=19, port=8899):
+def make_et(goodwe, serial, rated, refuse=(), battery_mode=2, seed=0, arm_fw=19, port=8899, comm_addr=0):
     sim = SI.Sim(seed=seed, refuse=[BLOCKS[b] for b in refuse])
     SI.et_identity(sim, serial=serial, rated=rated, arm_fw=arm_fw)
     sim.set(35184, battery_mode)
-    inv = SI.attach(goodwe.ET('192.0.2.1', port), sim)
+    inv = SI.attach(goodwe.ET('192.0.2.1', port, comm_addr), sim)
     return inv, sim
 
 
-def make_dt(goodwe, serial, refuse_meter=False, seed=0, port=8899):
+def make_dt(goodwe, serial, refuse_meter=False, seed=0, port=8899, comm_addr=0):
     sim = SI.Sim(seed=seed, refuse=[(30195, 30209)] if refuse_meter else [])
     SI.dt_identity(sim, serial=serial)
-    inv = SI.attach(goodwe.DT('192.0.2.1', port), sim)
+    inv = SI.attach(goodwe.DT('192.0.2.1', port, comm_addr), sim)
     return inv, sim
 
 
@@ -146,6 +146,38 @@ def mon_runtime(st, ctx, goodwe, want=('C15', 'C14')):
             st.case(('ET', serial, rated, sub, bm), sample=dict(config=cfg, outcomes=outcomes) if len(st.samples) < 3 else None)
         finally:
             sr.restore()
+    # a request lost in the middle of a call (the call fails with RequestFailedException, which the property allows); the calls
+    # after it must again return exactly the listed sensors, decoded from inside the fetched windows
+    lossy = [c for c in et_configs(ctx.rng, False) if {'meter_ext2', 'meter_ext', 'battery', 'mppt'} & set(c[3])]
+    for tag, serial, rated, sub, bm in lossy[:: (4 if not ctx.deep else 1)]:
+        for k in range(1, 7):
+            inv, sim = make_et(goodwe, serial, rated, sub, bm, seed=ctx.rng.randrange(1 << 30))
+            sr = ShortReads(goodwe); inv._map_response = sr.map_response
+            cfg = dict(family='ET', model=tag, serial=serial, rated_power=rated, refused=list(sub), battery_mode=bm, lost_request_of_first_call=k)
+            try:
+                run(inv.read_device_info())
+                sim.lose = {len(sim.log) + k}
+                outcomes = []
+                for call in range(4):
+                    try:
+                        data = run(inv.read_runtime_data()); outcomes.append('ok')
+                        ok, missing, extra = check_keys(inv, data)
+                        if not ok and 'C15' in want:
+                            st.violation('keys-differ', f'ET {tag} rated {rated} refusing {list(sub)}, request {k} of the first call lost: call {call + 1}: in sensors() but not in '
+                                                        f'the result {missing[:6]}; in the result but not in sensors() {extra[:6]}', dict(config=cfg, call=call + 1))
+                    except Exception as ex:     # noqa
+                        outcomes.append(type(ex).__name__)
+                    sim.lose = set()
+                if 'C15' in want and 'ok' not in outcomes[1:3]:
+                    st.violation('no-success-by-second-call', f'ET {tag} rated {rated} refusing {list(sub)}, request {k} of the first call lost: outcomes {outcomes}', dict(config=cfg, outcomes=outcomes))
+                if 'C14' in want:
+                    for sid, first, count in sr.events:
+                        key = 'mppt-window' if sid in KNOWN and first == 35301 else 'short-read'
+                        st.violation(key, f'ET {tag} rated {rated} refusing {list(sub)}, request {k} of the first call lost: sensor {sid} decoded past the end of the answer to READ '
+                                          f'{count} registers from {first}', dict(config=cfg, sensor=sid, first=first, count=count))
+                st.case(('ET-loss', serial, rated, sub, bm, k))
+            finally:
+                sr.restore()
     for tag, serial in DT_SERIALS.items():
         for refuse in (False, True):
             inv, sim = make_dt(goodwe, serial, refuse, seed=ctx.rng.randrange(1 << 30))
@@ -274,6 +306,7 @@ def mon_write(st, ctx, goodwe):
                 vals = [bytes.fromhex('0000173bff7fffec00500000'), bytes.fromhex('0630171e001500140064003f'), bytes.fromhex('0000173bfc7f00c8003c0000')]
             for v in vals:
                 _write_case(st, fam, inv, sim, s, v)
+        _write_sequences(st, ctx, fam, inv, sim)
     # ES: register-addressed eco-mode groups and switches (AA55 for v1, Modbus for v2)
     for serial, firmware in (('95048ESU123W0001', '2314E'), ('95048ESU123W0001', '1005A')):
         inv, sim = make_es(goodwe, serial, firmware, seed=ctx.rng.randrange(1 << 30)); run(inv.read_device_info())
@@ -285,6 +318,31 @@ def mon_write(st, ctx, goodwe):
             else: continue
             for v in vals:
                 _write_case(st, f'ES fw {firmware}', inv, sim, s, v)
+        _write_sequences(st, ctx, f'ES fw {firmware}', inv, sim)
+
+
+def _write_sequences(st, ctx, fam, inv, sim):
+    """histories: writes of settings that share registers (a one-byte switch inside a multi-register group, two halves of one
+    register), interleaved; every write is judged by _write_case against the simulator's state right before it"""
+    settings = list(inv.settings())
+    def regs(x): return range(x.offset, x.offset + max(1, (x.size_ + 1) // 2))
+    groups = {'EcoModeV1': [bytes.fromhex('0000173b0014ff7f'), bytes.fromhex('0630171effe2ff1f'), bytes.fromhex('0100020000640055')],
+              'EcoModeV2': [bytes.fromhex('0000173bff7fffec00500000'), bytes.fromhex('0630171eff1f00140064003f'), bytes.fromhex('01000200ff55000a00320001')]}
+    pairs = []
+    for b in settings:
+        if type(b).__name__ not in ('ByteH', 'ByteL'): continue
+        for g in settings:
+            if g is b or type(g).__name__ not in groups: continue
+            if b.offset in regs(g): pairs.append((b, g))
+        for b2 in settings:
+            if b2 is not b and type(b2).__name__ in ('ByteH', 'ByteL') and b2.offset == b.offset and type(b2) is not type(b): pairs.append((b, b2))
+    for b, g in pairs[:: (1 if ctx.deep else 2)]:
+        gv = groups.get(type(g).__name__, [1, -2, 85])
+        bv = [-1, 0, 1, 85, -128]
+        seqs = [[(b, bv[0]), (g, gv[0]), (b, bv[1])], [(b, bv[2]), (g, gv[1]), (b, bv[3]), (g, gv[2]), (b, bv[4])], [(g, gv[1]), (b, bv[0]), (g, gv[0]), (b, bv[1])]]
+        for seq in seqs:
+            for x, v in seq:
+                _write_case(st, fam + ' history ' + '>'.join(y.id_ for y, _ in seq), inv, sim, x, v)
 
 
 def _write_case(st, fam, inv, sim, s, v):
@@ -355,18 +413,26 @@ def mon_readonly(st, ctx, goodwe):
             st.case((name, meth, args))
             if wr:
                 st.violation('read-api-writes', f'{name}: {meth}{args} transmitted a write request: {wr[0]["raw"].hex()}', dict(object=name, call=meth, args=list(args), request=wr[0]['raw'].hex()))
-        # a legitimate write of value 1 followed by reads of the same registers (caches keyed by arguments only)
-        try:
-            n0 = len(sim.log)
-            if name.startswith('ET'):
-                run(inv.write_setting('grid_export_limit', 1)); run(inv.write_setting('backup_supply', 1)); run(inv.set_ongrid_battery_dod(99))
-            n1 = len(sim.log)
-            for meth, args in [('get_grid_export_limit', ()), ('read_setting', ('backup_supply',)), ('get_ongrid_battery_dod', ()), ('read_runtime_data', ()), ('read_settings_data', ())]:
-                try: run(getattr(inv, meth)(*args))
-                except Exception: pass
-            wr = [e for e in sim.log[n1:] if e in sim.writes()]
-            if wr: st.violation('read-api-writes', f'{name}: a monitoring call after a legitimate write transmitted a write request: {wr[0]["raw"].hex()}', dict(object=name, request=wr[0]['raw'].hex()))
-        except Exception: pass
+        # legitimate writes followed by monitoring calls on the same registers (a cache keyed by the arguments only, a remembered
+        # "last command", ... would replay the write): every call guarded on its own
+        def attempt(meth, *args):
+            try: run(getattr(inv, meth)(*args)); return True
+            except Exception: return False      # noqa
+        wrote = []
+        for sid, v in [('grid_export_limit', 1), ('backup_supply', 1), ('work_mode', 1), ('grid_export', 1), ('battery_discharge_depth', 1), ('shadow_scan', 1),
+                       ('grid_export_limit', 2), ('eco_mode_2_switch', 1), ('dod', 1)]:
+            if attempt('write_setting', sid, v): wrote.append(sid)
+        attempt('set_ongrid_battery_dod', 99); attempt('set_grid_export_limit', 1); attempt('set_operation_mode', OM.GENERAL)
+        n1 = len(sim.log)
+        after = [('get_grid_export_limit', ()), ('get_ongrid_battery_dod', ()), ('get_operation_mode', ()), ('read_runtime_data', ()), ('read_settings_data', ())]
+        after += [('read_setting', (sid,)) for sid in wrote]
+        for meth, args in after:
+            n2 = len(sim.log)
+            attempt(meth, *args)
+            st.case((name, 'after-write', meth, args))
+            wr = [e for e in sim.log[n2:] if e in sim.writes()]
+            if wr: st.violation('read-api-writes', f'{name}: {meth}{args} after legitimate writes ({wrote}) transmitted a write request: {wr[0]["raw"].hex()}',
+                                dict(object=name, call=meth, args=list(args), after_writes=wrote, request=wr[0]['raw'].hex()))
         # invalid setter arguments: nothing at all is transmitted
         bad = [('set_grid_export_limit', (-1,)), ('set_grid_export_limit', (-32768,)), ('set_ongrid_battery_dod', (-1,)), ('set_ongrid_battery_dod', (101,)),
                ('set_ongrid_battery_dod', (1000,)), ('write_setting', ('no_such_setting', 1))]
@@ -432,7 +498,47 @@ def mon_modes(st, ctx, goodwe):
                 run(inv.set_ongrid_battery_dod(d)); got = run(inv.get_ongrid_battery_dod())
                 st.case((vname, 'dod', d))
                 if got != d: st.violation('dod', f'ET {vname}: set_ongrid_battery_dod({d}) then get = {got}', dict(family='ET', variant=vname, value=d))
-            break_after = not ctx.deep
+            # the setters round-trip whatever happened before: the same value set again after the register was changed through
+            # another path (write_setting of the same register, another client writing the inverter directly)
+            for x, y in [(3000, 4000), (0, 1), (65534, 0)] + [(ctx.rng.randrange(65535), ctx.rng.randrange(65535)) for _ in range(2)]:
+                for via in ('write_setting', 'other-client', 'getter-then-other-client'):
+                    try:
+                        run(inv.set_grid_export_limit(x))
+                        if via == 'write_setting': run(inv.write_setting('grid_export_limit', y))
+                        elif via == 'other-client': sim.set(47510, y)
+                        else: run(inv.get_grid_export_limit()); sim.set(47510, y)
+                        run(inv.set_grid_export_limit(x)); got = run(inv.get_grid_export_limit())
+                    except Exception as ex:     # noqa
+                        st.violation('export-limit', f'ET {vname}: set/get export limit raised {type(ex).__name__}: {ex}', dict(family='ET', variant=vname, value=x)); continue
+                    st.case((vname, 'limit-history', x, y, via))
+                    if got != x:
+                        st.violation('export-limit', f'ET {vname}: set_grid_export_limit({x}); register changed to {y} via {via}; set_grid_export_limit({x}) again; '
+                                                     f'get_grid_export_limit() = {got}', dict(family='ET', variant=vname, value=x, other=y, via=via))
+            for d, e in [(10, 50), (0, 100), (99, 1)]:
+                for via in ('write_setting', 'other-client'):
+                    try:
+                        run(inv.set_ongrid_battery_dod(d))
+                        if via == 'write_setting': run(inv.write_setting('battery_discharge_depth', 100 - e))
+                        else: sim.set(inv._settings['battery_discharge_depth'].offset, 100 - e)
+                        run(inv.set_ongrid_battery_dod(d)); got = run(inv.get_ongrid_battery_dod())
+                    except Exception as ex:     # noqa
+                        st.violation('dod', f'ET {vname}: set/get DoD raised {type(ex).__name__}: {ex}', dict(family='ET', variant=vname, value=d)); continue
+                    st.case((vname, 'dod-history', d, e, via))
+                    if got != d:
+                        st.violation('dod', f'ET {vname}: set_ongrid_battery_dod({d}); changed to {e} via {via}; set_ongrid_battery_dod({d}) again; get = {got}',
+                                     dict(family='ET', variant=vname, value=d, other=e, via=via))
+            # the mode setters after the mode registers were changed through write_setting
+            for m1, m2 in [(OM.GENERAL, OM.BACKUP), (OM.ECO_CHARGE, OM.GENERAL), (OM.OFF_GRID, OM.ECO_DISCHARGE)]:
+                if m1 not in modes or m2 not in modes: continue
+                try:
+                    run(inv.set_operation_mode(m1, 40, 90)); run(inv.set_operation_mode(m2, 40, 90)); run(inv.set_operation_mode(m1, 40, 90))
+                    got = run(inv.get_operation_mode())
+                except Exception as ex:     # noqa
+                    st.count('set-refused:' + type(ex).__name__); continue
+                st.case((vname, 'mode-history', m1.name, m2.name))
+                if got != m1:
+                    st.violation('mode', f'ET {vname}: set {m1.name}, {m2.name}, {m1.name}: get_operation_mode() = {getattr(got, "name", got)}',
+                                 dict(family='ET', variant=vname, modes=[m1.name, m2.name, m1.name]))
     # ES
     for serial, fw in (('95048ESU123W0001', '2314E'), ('95048ESU123W0001', '1005A'), ('95048EMU123W0001', '1107B'), ('95000BPS123W0001', '0606A')):
         inv, sim = make_es(goodwe, serial, fw, seed=ctx.rng.randrange(1 << 30)); run(inv.read_device_info())
@@ -494,9 +600,9 @@ def _mk_pair(goodwe, kinds, seeds):
     objs = []
     for (fam, serial, refuse, prior), seed in zip(kinds, seeds):
         if fam == 'ET':
-            inv, sim = make_et(goodwe, serial, 10000, refuse, 2, seed=seed, port=prior.get('port', 8899))
+            inv, sim = make_et(goodwe, serial, 10000, refuse, 2, seed=seed, port=prior.get('port', 8899), comm_addr=prior.get('comm_addr', 0))
             if 'g1' in prior: sim.set_bytes(47547, bytes.fromhex(prior['g1'])); sim.set_bytes(47515, bytes.fromhex(prior['g1'])[:8])
-        elif fam == 'DT': inv, sim = make_dt(goodwe, serial, False, seed=seed)
+        elif fam == 'DT': inv, sim = make_dt(goodwe, serial, False, seed=seed, comm_addr=prior.get('comm_addr', 0))
         else: inv, sim = make_es(goodwe, serial, prior.get('fw', '2314E'), seed=seed)
         run(inv.read_device_info())
         objs.append((inv, sim))
@@ -523,20 +629,55 @@ def _do(inv, op, goodwe):
     except Exception as ex: return ('exc', type(ex).__name__)      # noqa
 
 
+def _own_group_unreadable(inv, sim):
+    """the known finding's precondition: the object's own eco_mode_1 registers do not decode (the read in set_operation_mode raises
+    ValueError before it can refresh the schedule type of the shared definition)"""
+    import copy
+    s = inv._settings.get('eco_mode_1')
+    if s is None or not hasattr(s, 'schedule_type'): return False
+    try:
+        import goodwe.protocol as PR
+        c = copy.deepcopy(s)
+        c.read_value(PR.ProtocolResponse(sim.get_bytes(s.offset, (s.size_ + 1) // 2), None))
+        return False
+    except ValueError:
+        return True
+    except Exception:      # noqa
+        return False
+
+
+def _run_ops(inv, sim, ops, goodwe):
+    out = []
+    for o in ops:
+        n0 = len(sim.log)
+        r = _do(inv, o, goodwe)
+        out.append((_show(r[1]), _transcript(sim)[n0:]))
+    return out
+
+
 def mon_indep(st, ctx, goodwe_unused):
     kinds_pool = [
         ('ET', ET_SERIALS['745 HV'], (), dict(g1='0000173bf97ffe0c00500fff')), ('ET', ET_SERIALS['205 three-phase'], (), dict(g1='400000000000000000000000')),
         ('ET', ET_SERIALS['205 three-phase'], (), dict(g1='0000173bff7fffce00500000')), ('ET', ET_SERIALS['205 three-phase'], ('eco_v2', 'peak_shaving'), dict(g1='0000173bffce ff7f'.replace(' ', '') + '00000000')),
         ('ET', ET_SERIALS['205 three-phase'], (), dict(g1='0000173bff7fffce00500000', port=502)),
         ('DT', DT_SERIALS['three-phase'], (), {}), ('ES', ES_SERIALS['ESU'], (), dict(fw='2314E')), ('ES', ES_SERIALS['ESU'], (), dict(fw='1005A')),
+        ('ET', ET_SERIALS['205 three-phase'], (), dict(g1='0000173bff7fffce00500000', comm_addr=0x25)), ('DT', DT_SERIALS['three-phase'], (), dict(comm_addr=0xf7)),
+        ('ET', ET_SERIALS['745 HV'], (), dict(g1='0000173bf97ffe0c00500fff', port=502, comm_addr=0x11)),
     ]
     n = 40 if not ctx.deep else 400
     menu = _ops_menu()
-    fixed = [  # (A, B, ops of A, ops of B, order): the recorded witnesses of the known finding, then commuting sequences
-        (kinds_pool[0], kinds_pool[1], [menu[1]], [menu[5]], [0, 1]),
-        (kinds_pool[0], kinds_pool[2], [menu[1], menu[3]], [menu[1]], [0, 1, 0]),
-        (kinds_pool[2], kinds_pool[4], [menu[0], menu[3], menu[4]], [menu[0], menu[4], menu[3]], [0, 1, 0, 1, 0, 1]),
-        (kinds_pool[5], kinds_pool[2], [menu[0], menu[12]], [menu[0], menu[4]], [1, 0, 1, 0]),
+    P = kinds_pool
+    fixed = [  # (A, B, ops of A, ops of B, order): the recorded witnesses of the known finding, then sequences chosen to cross the shared state
+        (P[0], P[1], [menu[1]], [menu[5]], [0, 1]),
+        (P[0], P[2], [menu[1], menu[3]], [menu[1]], [0, 1, 0]),
+        (P[2], P[4], [menu[0], menu[3], menu[4]], [menu[0], menu[4], menu[3]], [0, 1, 0, 1, 0, 1]),
+        (P[5], P[2], [menu[0], menu[12]], [menu[0], menu[4]], [1, 0, 1, 0]),
+        # a 745-platform object reads / sets its eco group, then an object of the other platform with a READABLE group sets a mode
+        (P[0], P[2], [menu[1]], [menu[5]], [0, 1]), (P[0], P[2], [menu[1]], [menu[6]], [0, 1]), (P[0], P[2], [menu[5]], [menu[6]], [0, 1]),
+        (P[2], P[0], [menu[1]], [menu[5]], [0, 1]), (P[0], P[2], [menu[8]], [menu[5], menu[1]], [0, 1, 1]), (P[10], P[4], [menu[1]], [menu[5]], [0, 1]),
+        # same register ranges, different communication addresses / transports
+        (P[2], P[8], [menu[0], menu[3]], [menu[0], menu[3], menu[12]], [0, 1, 0, 1, 1]), (P[8], P[2], [menu[12], menu[3]], [menu[12], menu[3], menu[0]], [0, 1, 0, 1, 1]),
+        (P[5], P[9], [menu[0], menu[12]], [menu[0], menu[12]], [0, 1, 0, 1]), (P[2], P[9], [menu[12]], [menu[12]], [0, 1]), (P[4], P[10], [menu[0], menu[3]], [menu[0], menu[3]], [0, 1, 0, 1]),
     ]
     for trial in range(n + len(fixed)):
         seeds = [ctx.rng.randrange(1 << 30), ctx.rng.randrange(1 << 30)]
@@ -554,33 +695,37 @@ def mon_indep(st, ctx, goodwe_unused):
         for which, (kind, ops, seed) in enumerate(((ka, oa, seeds[0]), (kb, ob, seeds[1]))):
             goodwe = SI.reload_goodwe()
             (inv, sim), = _mk_pair(goodwe, [kind], [seed])
-            n0 = len(sim.log)
-            res = [_show(_do(inv, o, goodwe)[1]) for o in ops]
-            solo.append((res, _transcript(sim)[n0:]))
+            solo.append(_run_ops(inv, sim, ops, goodwe))
         # interleaved
         goodwe = SI.reload_goodwe()
         (ia, sa), (ib, sb) = _mk_pair(goodwe, [ka, kb], seeds)
-        n0 = [len(sa.log), len(sb.log)]
-        res = [[], []]; held = []
+        inter = [[], []]; held = []
         idx = [0, 0]
+        unreadable = [False, False]
         for w in order:
             o = (oa, ob)[w][idx[w]]; idx[w] += 1
-            r = _do((ia, ib)[w], o, goodwe)
-            res[w].append(_show(r[1])); held.append((w, o, r[1], _show(r[1])))
+            inv, sim = ((ia, sa), (ib, sb))[w]
+            unreadable_now = _own_group_unreadable(inv, sim)
+            n0 = len(sim.log)
+            r = _do(inv, o, goodwe)
+            inter[w].append((_show(r[1]), _transcript(sim)[n0:], unreadable_now)); held.append((w, o, r[1], _show(r[1])))
         cfg = dict(A=dict(family=ka[0], serial=ka[1], refused=list(ka[2]), prior=ka[3]), B=dict(family=kb[0], serial=kb[1], refused=list(kb[2]), prior=kb[3]),
                    ops_A=[(m, [repr(a) for a in args]) for m, args in oa], ops_B=[(m, [repr(a) for a in args]) for m, args in ob], order=order, seeds=seeds)
         st.case(repr(cfg), sample=cfg if len(st.samples) < 2 else None)
-        for w, name, sim in ((0, 'A', sa), (1, 'B', sb)):
-            tr = _transcript(sim)[n0[w]:]
-            eco = any('eco' in str(o) or 'ECO' in str(o) or 'settings_data' in o[0] or 'operation_mode' in o[0] for o in oa + ob)
-            if tr != solo[w][1]:
-                i = next((i for i, (x, y) in enumerate(zip(tr, solo[w][1])) if x != y), min(len(tr), len(solo[w][1])))
-                st.violation('shared-eco-mode-definition' if eco else 'requests-differ',
-                             f'object {name} transmits {tr[i] if i < len(tr) else None} interleaved but {solo[w][1][i] if i < len(solo[w][1]) else None} alone (request {i})', dict(config=cfg))
-            elif res[w] != solo[w][0]:
-                i = next(i for i, (x, y) in enumerate(zip(res[w], solo[w][0])) if x != y)
-                st.violation('shared-eco-mode-definition' if eco else 'results-differ',
-                             f'object {name}: result {i} is {res[w][i]} interleaved but {solo[w][0][i]} alone', dict(config=cfg))
+        for w, name, ops in ((0, 'A', oa), (1, 'B', ob)):
+            for i, (o, (res_i, tr_i, unread), (res_s, tr_s)) in enumerate(zip(ops, inter[w], solo[w])):
+                if tr_i == tr_s and res_i == res_s: continue
+                # the recorded finding: an emulated eco mode is set on an object that cannot read its own first group
+                known = o[0] == 'set_operation_mode' and str(o[1][0]) in ('@ECO_CHARGE', '@ECO_DISCHARGE') and unread
+                if tr_i != tr_s:
+                    j = next((j for j, (x, y) in enumerate(zip(tr_i, tr_s)) if x != y), min(len(tr_i), len(tr_s)))
+                    st.violation('shared-eco-mode-definition' if known else 'requests-differ',
+                                 f'object {name}, call {i + 1} {o[0]}{tuple(str(a) for a in o[1])}: transmits {tr_i[j] if j < len(tr_i) else None} interleaved but '
+                                 f'{tr_s[j] if j < len(tr_s) else None} alone', dict(config=cfg, object=name, call=i))
+                else:
+                    st.violation('shared-eco-mode-definition' if known else 'results-differ',
+                                 f'object {name}, call {i + 1} {o[0]}{tuple(str(a) for a in o[1])}: result {res_i} interleaved but {res_s} alone', dict(config=cfg, object=name, call=i))
+                break
         for w, o, val, shown in held:
             if _show(val) != shown:
                 st.violation('returned-eco-value-changes' if hasattr(val, 'start_h') else 'returned-value-changes',
